@@ -37,6 +37,9 @@ mod c30;
 #[path = "../ls/c29.rs"]
 mod c29;
 
+#[path = "../ls/c28.rs"]
+mod c28;
+
 /// Report of harness/build.rs about the checked-in generated parser (empty = up to date).
 const STALE_REPORT: &str = include_str!(concat!(env!("OUT_DIR"), "/ls_stale_report.txt"));
 
@@ -49,6 +52,7 @@ fn main() {
     match args[1].as_str() {
         "c30" => c30::cli(&args[2..]),
         "c29" => c29::cli(&args[2..]),
+        "c28" => c28::cli(&args[2..]),
         "stale" => {
             if STALE_REPORT.is_empty() {
                 println!("fresh");
